@@ -203,6 +203,10 @@ func encodeResults(w io.Writer, runLogs []string, results RunResults,
 		if splitOutputs {
 			stateMap := make(map[string]interface{})
 			for i, state := range description.States {
+				if i >= stateArray.Len(0) {
+					// fewer state values than state names (e.g. Lag with no delay has an empty buffer)
+					break
+				}
 				singleState := stateArray.Get([]int{i})
 				stateMap[state] = owjs.JsonSafeValue(singleState)
 			}
